@@ -307,4 +307,14 @@ def lingerGo (linger : Nat) : Nat → List (String × String × Nat) → List TE
 
 def lingerOk (linger : Nat) (evs : List TEv) : Bool := linger == 0 || lingerGo linger 0 [] evs
 
+/-- C08 / C01 "a batch handed to the queue is closed": nothing is appended to a batch after its `PW.Detach` (the
+append loop of writeMessages and the timer goroutine exclude each other through ptw.mutex; the model's `add` requires
+`detached = none`) -/
+def noAddAfterDetach : List TEv → Bool
+  | [] => true
+  | e :: rest =>
+    (match e with
+     | ["PW.Detach", _, b, _, _] => rest.all (fun x => match x with | ["PW.Add", _, b', _, _, _] => b' != b | _ => true)
+     | _ => true) && noAddAfterDetach rest
+
 end KV.WriterSpec
